@@ -2,7 +2,7 @@
 import z3
 from pyvc.core import *
 from pyvc.verify import Contract, LoopSpec, Unroll, Clause
-from pyvc.symexec import Raise, Obligation, Opaque, UFMap, Unsupported
+from pyvc.symexec import Raise, Obligation, Opaque, UFMap, Unsupported, FallibleIter
 from pyvc import source as S
 
 
